@@ -13,6 +13,7 @@ package reader
 
 //@ func NewReader
 //@   names b _
+//@   opt constructor the ghost base of the new reader is the buffer it holds when it is handed out
 //@   ensures result != nil && result.base == b && result.data == b && result.count == 0 && inv(result)
 
 //@ func (*Reader).Uint8
